@@ -245,7 +245,10 @@ def _check_balanced(case, rdict, pdict, mode):
     for a in assignments:
         tot = {}
         for k, v, sgn in items:
-            val = _to_fraction(sympy.sympify(v).subs(a) if a else v)
+            try:
+                val = _to_fraction(sympy.sympify(v).subs(a) if a else v)
+            except TypeError:
+                return "coefficient %r of %s is not a rational number (or affine in the symbols)" % (v, k), bool(syms)
             for ck, cv in comps[k].items():
                 tot[ck] = tot.get(ck, 0) + sgn * val * cv
         bad = {ck: str(t) for ck, t in tot.items() if t != 0}
